@@ -144,6 +144,8 @@ pub fn collect_sources<FS: FileSystem>(
     // a file can be reached along several paths, or include itself
     let mut visited = HashSet::new();
     while let Some(file_id) = files.pop_front() {
+        #[cfg(feature = "verif")]
+        crate::verif::step();
         if !visited.insert(file_id) {
             continue;
         }
